@@ -12,9 +12,25 @@ CLASSES = [
 ]
 
 
+REFDECL = re.compile(r"^\s*let\s+(@[A-Za-z0-9_$-]+)", re.M)
+
+
+def conflated_reference(mods):
+    """K21: the same @name is declared in two modules of the set"""
+    seen = {}
+    for loc, text in mods.items():
+        for n in set(REFDECL.findall(text)):
+            if n in seen and seen[n] != loc:
+                return True
+            seen[n] = loc
+    return False
+
+
 def classify_panic(msg, mods):
     """returns the known-finding id whose class the panic belongs to, or None"""
     msg = msg or ""
+    if re.search(r"not an? [a-zA-Z ]+:", msg) and conflated_reference(mods):
+        return "K21"
     for kid, pat in CLASSES:
         if pat.search(msg):
             if kid == "K2" and len(mods) < 2:
